@@ -382,6 +382,26 @@ def _nesting_counter_rule(prog, chk, fns):
                         cp = SX.cmp_parts(c) if c.get('k') in ('bin', 'opcall', 'un') else None
                         if cp and SX.is_this_member(SX.strip(cp[1]), nm) and SX.is_node(SX.strip(cp[2])) and SX.strip(cp[2]).get('v') == 0:
                             counters.add(nm)
+    # the counter may be raised by a scope guard (`ConstructorNestingGuard nesting(*this);`): records whose constructor increments an
+    # analyser member that some method compares with 0, and whose destructor decrements it
+    guard_recs = set()
+    for fn in prog.functions:
+        if fn.kind != 'ctor' or not fn.body or 'semantic_analyser' not in fn.file:
+            continue
+        for n in SX.walk(fn.body):
+            w = SX.write_target(n)
+            l0 = SX.strip(w[0]) if w else None
+            if w and SX.is_node(l0) and l0.get('k') == 'member' and (l0.get('q') or '').startswith(AN + '::') and \
+                    (w[2] == '++' or (w[2] == '+=' and SX.is_node(SX.strip(w[1])) and SX.strip(w[1]).get('v') == 1)):
+                nm = l0['name']
+                tested = any(SX.is_this_member(SX.strip(cp[1]), nm) and SX.is_node(SX.strip(cp[2])) and SX.strip(cp[2]).get('v') == 0
+                             for f2 in meths for c in SX.walk(f2.body) for cp in [SX.cmp_parts(c) if c.get('k') in ('bin', 'opcall', 'un') else None] if cp)
+                dt = [d for d in prog.methods_of(fn.cls) if d.kind == 'dtor' and d.body] if fn.cls else []
+                dec = any((lambda w2: w2 and SX.is_node(SX.strip(w2[0])) and SX.strip(w2[0]).get('k') == 'member' and SX.strip(w2[0]).get('name') == nm and w2[2] in ('--', '-='))(SX.write_target(x))
+                          for d in dt for x in SX.walk(d.body))
+                if tested and dec:
+                    counters.add(nm)
+                    guard_recs.add(fn.cls)
     chk.count('nesting counters of the analyser', len(counters), 1)
     ctrl = []
     for rname, rec in prog.facts.records.items():
@@ -403,9 +423,10 @@ def _nesting_counter_rule(prog, chk, fns):
             continue
         nv += 1
         incs = [n for n, l, r, op in g.writes() if SX.is_this_member(SX.strip(l)) and SX.strip(l)['name'] in counters and op in ('++', '+=')]
+        guards = [d for d in g.nodes if d.kind == 'decl' and (d.e.get('type') or '').replace('const ', '').strip() in guard_recs]
         bad = []
         for a in accepts:
-            ok = False
+            ok = any(g.dominates(d, a) for d in guards)      # a scope guard declared before the child is visited
             for inc in incs:
                 gs = [(ce, pol, ed) for ce, pol, ed in g.guards(inc)]
                 if not gs:
@@ -413,7 +434,13 @@ def _nesting_counter_rule(prog, chk, fns):
                     continue
                 ce, pol, ed = gs[-1]
                 cnode = getattr(ed, 'cond', None)
-                if cnode is not None and g.dominates(cnode, a) and a.id not in g.reachable([ed], avoid=[inc]):
+                # the only condition the raise may depend on is "inside a constructor" (the flag itself or a local copy of it)
+                c0 = SX.strip(ce)
+                if SX.is_node(c0) and c0.get('k') == 'ref' and c0.get('kind') == 'var':
+                    dv = [v for v in SX.walk(f.body, into_lambdas=False) if v['k'] == 'var' and v.get('id') == c0.get('id')]
+                    c0 = SX.strip(dv[0].get('init')) if dv and SX.is_node(dv[0].get('init')) else c0
+                flag_ok = len(gs) == 1 and pol and SX.is_this_member(c0, 'm_inConstructor')
+                if flag_ok and cnode is not None and g.dominates(cnode, a) and a.id not in g.reachable([ed], avoid=[inc]):
                     ok = True
             if not ok:
                 bad.append(a)
